@@ -125,6 +125,30 @@ func c01Layouts(tier string, f func(i int, l pegen.Layout)) {
 				}
 			}
 		}
+		// every count of data directories crossed with few/no sections: with five directories and no
+		// section the headers end right after the certificate-table entry (an empty hashed range)
+		for _, nr := range []int{5, 6, 16} {
+			for ns := 0; ns <= 2; ns++ {
+				for _, ce := range certs {
+					for _, tr := range []int{0, 3, 24} {
+						for _, sl := range []int{0, 8} {
+							f(i, pegen.Layout{PE32Plus: plus, Lfanew: 0x40, Secs: []pegen.Sec{{RawSize: 13}, {RawSize: 8}}[:ns], Trailing: tr, Certs: ce, NumRva: nr, HdrSlack: sl})
+							i++
+						}
+					}
+				}
+			}
+		}
+		// sections without raw data whose (ignored) file pointer is not zero: inside another section,
+		// on a section start / end, at and beyond the end of the file
+		for _, rel := range []int{1, 4, 8, 9, 21, 22, 100000} {
+			for _, pos := range []int{0, 1, 2} {
+				secs := []pegen.Sec{{RawSize: 8}, {RawSize: 13}}
+				secs = append(secs[:pos], append([]pegen.Sec{{RawSize: 0, EmptyPtrRel: rel}}, secs[pos:]...)...)
+				f(i, pegen.Layout{PE32Plus: plus, Lfanew: 0x40, Secs: secs, Trailing: 1})
+				i++
+			}
+		}
 		// a hashed-range boundary exactly on io.Copy's 32 KiB chunk edge (and one byte either side)
 		for _, d := range []int{-1, 0, 1} {
 			for _, ce := range certs {
@@ -160,6 +184,7 @@ var readerKinds = []struct {
 		r.Read(make([]byte, 2))
 		return r
 	}},
+	{"ReaderAt reporting io.EOF together with the last bytes of the file", func(img []byte) io.ReaderAt { return eofWithDataReaderAt(img) }},
 	{"open-ended io.SectionReader", func(img []byte) io.ReaderAt { return io.NewSectionReader(bytes.NewReader(img), 0, 1<<62) }},
 	{"exact io.SectionReader", func(img []byte) io.ReaderAt { return io.NewSectionReader(bytes.NewReader(img), 0, int64(len(img))) }},
 	{"*strings.Reader whose read cursor was advanced", func(img []byte) io.ReaderAt {
@@ -167,6 +192,21 @@ var readerKinds = []struct {
 		r.Read(make([]byte, 3))
 		return r
 	}},
+}
+
+// eofWithDataReaderAt uses the freedom the io.ReaderAt contract gives at the end of the data: a read
+// that ends exactly at the end of the file returns its bytes and io.EOF in the same call.
+type eofWithDataReaderAt []byte
+
+func (b eofWithDataReaderAt) ReadAt(p []byte, off int64) (int, error) {
+	if off >= int64(len(b)) {
+		return 0, io.EOF
+	}
+	n := copy(p, b[off:])
+	if off+int64(n) == int64(len(b)) {
+		return n, io.EOF
+	}
+	return n, nil
 }
 
 func libDigestVia(r io.ReaderAt) (d []byte, perr error, pn *hx.Panic) {
@@ -424,7 +464,7 @@ func c01Run(c *hx.Ctx, tier, unit string) {
 					if lo > len(flat) {
 						lo = len(flat)
 					}
-					if rn != wn || !bytes.Equal(buf[:rn], flat[lo:lo+wn]) || (wn < ln && rerr == nil) || (wn == ln && rerr != nil) || m.Size() != int64(len(flat)) {
+					if rn != wn || !bytes.Equal(buf[:rn], flat[lo:lo+wn]) || (wn < ln && rerr == nil) || (wn == ln && rerr != nil && !(rerr == io.EOF && off+ln == len(flat) && ln > 0)) || m.Size() != int64(len(flat)) {
 						c.Outcome("multireader-mismatch")
 						c.Violation("C01 positional reader over the concatenated ranges differs from slicing the concatenation", map[string]any{"parts": fmt.Sprint(parts), "off": off, "len": ln, "n": rn, "err": fmt.Sprint(rerr), "got": hx8(buf[:rn])})
 						continue
@@ -433,9 +473,10 @@ func c01Run(c *hx.Ctx, tier, unit string) {
 					c.Nontrivial([]byte(fmt.Sprint(parts, off, ln)))
 				}
 			}
-			if n == 4 || (n > 0 && len(parts[n-1]) == 0) {
-				// a zero-size part is only reachable as the last one (empty trailing data);
-				// the parser never builds an empty range in the middle, so none is demanded here
+			if n == 4 {
+				// zero-size parts are demanded in every position: Parse builds an empty range in the
+				// middle when SizeOfHeaders ends right after the certificate-table directory entry
+				// (five data directories, no sections), and an empty last one for no trailing data
 				return
 			}
 			for sz := 0; sz <= 3; sz++ {
